@@ -197,6 +197,11 @@ func cmdRun(args []string) int {
 	for r := range dirs {
 		rels = append(rels, r)
 	}
+	for _, md := range modelDirs() {
+		if _, ok := dirs[md]; !ok {
+			rels = append(rels, md)
+		}
+	}
 	sort.Strings(rels)
 	ov, err := prepareOverlay(rels, workDir, extra)
 	if err != nil {
@@ -320,6 +325,14 @@ func cmdRun(args []string) int {
 				for k, n := range st.Unsupported {
 					fmt.Printf("    unsupported x%d: %s\n", n, k)
 				}
+			}
+			for i, n := range st.Notes {
+				if i < 6 {
+					fmt.Printf("    note: %s\n", n)
+				}
+			}
+			if st.Incomplete {
+				fmt.Printf("    note: exploration stopped by the path/time budget before the bound was exhausted\n")
 			}
 			if *verbose {
 				for k, n := range st.PathsEnded {
